@@ -281,6 +281,18 @@ impl Transaction {
             let (input_slips, output_slips) =
                 wallet.generate_slips(total_requested, network, latest_block_id, genesis_period);
 
+            // part of the balance may be in slips that cannot be spent right now
+            let nolan_in = input_slips
+                .iter()
+                .fold(0 as Currency, |sum, slip| sum.saturating_add(slip.amount));
+            if nolan_in < total_requested {
+                debug!(
+                    "not enough usable funds to create transaction. required : {:?} usable : {:?}",
+                    total_requested, nolan_in
+                );
+                return Err(Error::from(ErrorKind::NotFound));
+            }
+
             for input in input_slips {
                 transaction.add_from_slip(input);
             }
